@@ -61,7 +61,19 @@ t = t.replace("{{SEED_SUMMARY}}", f"{n_proof + n_standin} of {n_proof + n_standi
               "parsers), C08-b / C11-a (contracts on the tree `coordinates` setters), C16-b (integer-dtype variants + `dtype_truncation` obligation), "
               "C19-b (explicit-spec stand-in; it also exposed that `from_dataset(ds, source_grid_spec=...)` adopted the caller's dataset — repaired), "
               "C01-b (ownership precondition on the in-place MPAS helpers), C12-b (remap history stand-in), C05-b (syntactic frame obligation on "
-              "`compute_face_areas`).")
+              "`compute_face_areas`).  Third / fourth batch (21 seeds): 13 were missed at first.  Caught after extending the PROOFS: C02-c "
+              "(shared module-level attrs dict: contract on `_populate_edge_node_connectivity` with the module-constant frame), C15-c (memoised "
+              "antimeridian side table: non-interference contract on `_grid_to_polygon_geodataframe`), C04-b (wrap missing when node_lat is read "
+              "first: contracts on the lazy lon/lat properties), C09-c / C10-a (`_slice_from_grid`), C10-b (`Grid.copy`), C12-b (`_remap_grid_parse`), "
+              "C17-c (aggregation wrappers), C19-a (caller-owned buffers in the lon-range contract), C19-c (`to_polycollection` in C19), C01-c "
+              "(`_read_esmf`), C07-c (`_read_exodus`), C05-c (`calculate_face_area` fan structure), C20-c (`__ne__` in abstract mode), C02-d (face_edge "
+              "tied to the reported edge table), C08-c (array-variant frame contracts of the conversions), C11-c (`query` dataflow), C03-a (now "
+              "also a proof: `_build_face_face_connectivity`).  Caught after extending STAND-INS (written by sub-agents from the property text, "
+              "checked by me for false alarms on the unchanged tree): C07-c (xyz-bearing non-unit sources), C15-c (projection frames / project "
+              "flag), C05-c (equator-mirror Cartesian faces), C18-c (locally refined meshes), C02-d (source-supplied edge tables), C08-c "
+              "(non-unit Cartesian-only sources), C20-c (access histories), C03-d (slices of grids with materialised tables).  Two of these "
+              "extensions found genuine defects of the unchanged library (supplied edge table replaced: repaired; dual ring order on very "
+              "coarse triangulations: recorded).")
 d = open(f"{V}/DESIGN.md").read()
 k = d.index("\n--------------------------------------------------------------------------\n\n## 7. As built")
 open(f"{V}/DESIGN.md", "w").write(d[:k] + t)
